@@ -24,7 +24,7 @@ try:
     ran = []
     if demo.endswith(".go"):
         text = open(demo).read()
-        m = re.search(r"(internal/[a-z_/]+[a-z])", text[:1500])
+        m = re.search(r"((?:internal|cmd)/[a-z_/]+[a-z])", text[:1500])
         pkgdir = m.group(1).rstrip("/")
         if pkgdir.endswith(".go"):
             pkgdir = os.path.dirname(pkgdir)
